@@ -184,6 +184,22 @@ fn containers(out: &mut Out, rng: &mut Rng, thorough: bool) {
                 ("KeyPair<Locked, Locked>::new().secret_key", dryoc::keypair::KeyPair::<Locked<HeapByteArray<32>>, Locked<HeapByteArray<32>>>::new().secret_key.as_slice().to_vec()),
                 ("KeyPair<Locked, Locked>::default().public_key", dryoc::keypair::KeyPair::<Locked<HeapByteArray<32>>, Locked<HeapByteArray<32>>>::default().public_key.as_slice().to_vec()),
             ];
+            // the locked key-pair constructors: fresh ones are zero, generated ones are real key pairs
+            {
+                use dryoc::keypair::KeyPair;
+                type LK = KeyPair<Locked<HeapByteArray<32>>, Locked<HeapByteArray<32>>>;
+                type LRO = KeyPair<LockedRO<HeapByteArray<32>>, LockedRO<HeapByteArray<32>>>;
+                type SK = dryoc::sign::SigningKeyPair<Locked<HeapByteArray<32>>, Locked<HeapByteArray<64>>>;
+                type SRO = dryoc::sign::SigningKeyPair<LockedRO<HeapByteArray<32>>, LockedRO<HeapByteArray<64>>>;
+                out.search_evaluations += 6;
+                match guard(|| LK::new_locked_keypair()) { Outcome::Ok(kp) => { if kp.public_key.as_slice().iter().chain(kp.secret_key.as_slice()).any(|x| *x != 0) { out.hit("containers.differ.fresh-contents", "KeyPair::new_locked_keypair is not zero".into(), json!({"op":"containers.fresh","container":"KeyPair::new_locked_keypair"})); } } o => out.hit("containers.fail.keypair.new_locked_keypair", o.class().to_string(), json!({})) }
+                match guard(|| LK::gen_locked_keypair()) { Outcome::Ok(kp) => { let sk: [u8; 32] = kp.secret_key.as_slice().try_into().unwrap(); if kp.public_key.as_slice() != sodium::scalarmult_base(&sk) || sk == [0u8; 32] { out.hit("containers.differ.keypair.gen_locked_keypair", "public key is not the base multiple of the secret key".into(), json!({"op":"containers.keypair","sk":hx(&sk)})); } } o => out.hit("containers.fail.keypair.gen_locked_keypair", o.class().to_string(), json!({})) }
+                match guard(|| LRO::gen_readonly_locked_keypair()) { Outcome::Ok(kp) => { let sk: [u8; 32] = kp.secret_key.as_slice().try_into().unwrap(); if kp.public_key.as_slice() != sodium::scalarmult_base(&sk) || sk == [0u8; 32] { out.hit("containers.differ.keypair.gen_readonly_locked_keypair", "public key is not the base multiple of the secret key".into(), json!({"op":"containers.keypair","sk":hx(&sk)})); } } o => out.hit("containers.fail.keypair.gen_readonly_locked_keypair", o.class().to_string(), json!({})) }
+                match guard(|| SK::new_locked_keypair()) { Outcome::Ok(kp) => { if kp.public_key.as_slice().iter().chain(kp.secret_key.as_slice()).any(|x| *x != 0) { out.hit("containers.differ.fresh-contents", "SigningKeyPair::new_locked_keypair is not zero".into(), json!({"op":"containers.fresh","container":"SigningKeyPair::new_locked_keypair"})); } } o => out.hit("containers.fail.sign.new_locked_keypair", o.class().to_string(), json!({})) }
+                let sign_ok = |pk: &[u8], sk: &[u8]| -> bool { let seed: [u8; 32] = sk[..32].try_into().unwrap(); let (lpk, lsk) = sodium::sign_seed_keypair(&seed); lpk[..] == pk[..] && lsk[..] == sk[..] };
+                match guard(|| SK::gen_locked_keypair()) { Outcome::Ok(kp) => { if !sign_ok(kp.public_key.as_slice(), kp.secret_key.as_slice()) { out.hit("containers.differ.sign.gen_locked_keypair", "not the key pair of its seed".into(), json!({"op":"containers.sign-keypair","sk":hx(kp.secret_key.as_slice())})); } } o => out.hit("containers.fail.sign.gen_locked_keypair", o.class().to_string(), json!({})) }
+                match guard(|| SRO::gen_readonly_locked_keypair()) { Outcome::Ok(kp) => { if !sign_ok(kp.public_key.as_slice(), kp.secret_key.as_slice()) { out.hit("containers.differ.sign.gen_readonly_locked_keypair", "not the key pair of its seed".into(), json!({"op":"containers.sign-keypair","sk":hx(kp.secret_key.as_slice())})); } } o => out.hit("containers.fail.sign.gen_readonly_locked_keypair", o.class().to_string(), json!({})) }
+            }
             for (name, v) in fresh { if v.is_empty() || v.iter().any(|x| *x != 0) { out.hit("containers.differ.fresh-contents", format!("a new {} holds {} where the stack array holds zeros", name, hx(&v)), json!({"op":"containers.fresh","container":name})); } }
         }
         // ---- the same resize script on Vec, HeapBytes and LockedBytes: same length, same bytes, same digest
